@@ -261,8 +261,9 @@ def eval_case(ctx, case, props):
             if exp[0] == 'ok':
                 ctx.violation(case, {'why': f'call {di} {d} is a compatible pair but was rejected with {got[1]}'})
                 return
-            if exp[1] is not None and got[1] != exp[1]:
-                ctx.violation(case, {'why': f'call {di} {d} raised {got[1]}, expected {exp[1]}'})
+            # the property says such pairs "are rejected"; it does not name the exception class
+            if got[1] not in ('TypeError', 'ValueError', 'ZeroDivisionError'):
+                ctx.violation(case, {'why': f'call {di} {d} raised {got[1]} (not a rejection of the arguments)'})
                 return
             continue
         if exp[0] == 'err':
@@ -309,8 +310,7 @@ def eval_case(ctx, case, props):
                 if got[0] == 'ok':
                     ok = (mr == 'ok')
                 else:
-                    ok = mr.startswith('err:') and mr.endswith('unchanged' if not changed else 'changed') and \
-                        (mr.split(':')[1] == got[1] or decls[di][0] == 'worm')
+                    ok = mr.startswith('err:') and mr.endswith('unchanged' if not changed else 'changed')
                 if not ok:
                     ctx.mismatch(case, {'call': di, 'decl': decls[di], 'impl': got, 'changed': changed}, mr)
                     break
@@ -348,12 +348,12 @@ def check_assembly(ctx, case, pool, objs, motors, kv):
             got = ('err', type(ex).__name__)
         ctx.count('assembly ' + (got[0] if got[0] == 'ok' else got[1]))
         if len(chain) == 1:
-            if got != ('err', 'ValueError'):
-                ctx.violation(case, {'why': f'a motor that drives nothing gave {got} instead of ValueError'})
+            if got[0] != 'err':
+                ctx.violation(case, {'why': 'a powertrain was built from a motor that drives nothing'})
             continue
         if len(set(names)) != len(names):
-            if got != ('err', 'NameError'):
-                ctx.violation(case, {'why': f'duplicate names {names} gave {got} instead of NameError'})
+            if got[0] != 'err':
+                ctx.violation(case, {'why': f'a powertrain was built although two elements share a name: {names}'})
             continue
         if got[0] != 'ok':
             ctx.violation(case, {'why': f'assembly of a valid chain raised {got[1]}'})
